@@ -21,7 +21,7 @@ import (
 // The reference (DESIGN appendix D) is tracked from the event list only.
 
 var c13Events = []string{
-	"new:same", "new:v4", "new:v6", "new:raw",
+	"new:same", "new:v4", "new:v6", "new:raw", "new:drop-v6", "new:drop-raw",
 	"approve-ok", "approve-fail", "compare",
 	"drift", "repair",
 	"bzip2", "remove",
@@ -71,8 +71,13 @@ func (w *c13World) writePolicy(p *c13Policy) {
 	d := w.pdir(p.n)
 	os.MkdirAll(filepath.Join(d, "code", "ipv6"), 0755)
 	os.WriteFile(filepath.Join(d, "code", "router"), []byte(fmt.Sprintf("ipv4 code version %d\n", p.code[0])), 0644)
-	os.WriteFile(filepath.Join(d, "code", "ipv6", "router"), []byte(fmt.Sprintf("ipv6 code version %d\n", p.code[1])), 0644)
-	os.WriteFile(filepath.Join(d, "code", "router.raw"), []byte(fmt.Sprintf("raw version %d\n", p.code[2])), 0644)
+	// version 0 = the policy has no such file for the device
+	if p.code[1] != 0 {
+		os.WriteFile(filepath.Join(d, "code", "ipv6", "router"), []byte(fmt.Sprintf("ipv6 code version %d\n", p.code[1])), 0644)
+	}
+	if p.code[2] != 0 {
+		os.WriteFile(filepath.Join(d, "code", "router.raw"), []byte(fmt.Sprintf("raw version %d\n", p.code[2])), 0644)
+	}
 	os.WriteFile(filepath.Join(d, "code", "router.info"), []byte(`{"model":"Linux"}`), 0644)
 	os.Remove(filepath.Join(w.dir, "policies", "current"))
 	os.Symlink(fmt.Sprintf("p%d", p.n), filepath.Join(w.dir, "policies", "current"))
@@ -109,6 +114,10 @@ func (w *c13World) enabled(ev string) bool {
 			}
 		}
 		return false
+	case "new:drop-v6":
+		return w.current().code[1] != 0
+	case "new:drop-raw":
+		return w.current().code[2] != 0
 	case "repair":
 		return w.device == nil || *w.device != w.current().code
 	case "drift":
@@ -138,6 +147,10 @@ func (w *c13World) apply(ev string) error {
 		case "new:raw":
 			p.code[2] = w.nextVer
 			w.nextVer++
+		case "new:drop-v6":
+			p.code[1] = 0
+		case "new:drop-raw":
+			p.code[2] = 0
 		}
 		w.policies = append(w.policies, p)
 		w.writePolicy(p)
@@ -161,7 +174,12 @@ func (w *c13World) apply(ev string) error {
 		for _, p := range w.policies[:len(w.policies)-1] {
 			if p.disk == "plain" {
 				d := filepath.Join(w.pdir(p.n), "code")
-				files := []string{filepath.Join(d, "router"), filepath.Join(d, "ipv6", "router"), filepath.Join(d, "router.raw"), filepath.Join(d, "router.info")}
+				files := []string{filepath.Join(d, "router"), filepath.Join(d, "router.info")}
+				for _, f := range []string{filepath.Join(d, "ipv6", "router"), filepath.Join(d, "router.raw")} {
+					if _, err := os.Stat(f); err == nil {
+						files = append(files, f)
+					}
+				}
 				if out, err := exec.Command("bzip2", append([]string{"-9", "-f"}, files...)...).CombinedOutput(); err != nil {
 					return fmt.Errorf("bzip2: %v %s", err, out)
 				}
@@ -207,6 +225,9 @@ func (w *c13World) apply(ev string) error {
 func (w *c13World) canon() string {
 	ren := map[int]int{}
 	id := func(v int) int {
+		if v == 0 {
+			return 0 // file absent
+		}
 		if _, ok := ren[v]; !ok {
 			ren[v] = len(ren) + 1
 		}
@@ -476,7 +497,7 @@ func init() {
 		Run: c13Run,
 		Meta: func(tier string) core.Meta {
 			return core.Meta{ID: "C13", Level: "model_checking",
-				Rule: "breadth-first search over event histories with canonical-state de-duplication (version ids by first appearance, times and policy numbers by rank); events: new policy {same code, v4/v6/raw differs}, approve ok, approve failed, compare (result computed from the world), manual drift, manual repair, bzip2 of the oldest plain non-current policy (real bzip2), removal of the oldest non-current policy, status damage {empty, 1/3, 2/3, len-1, garbage}; every event advances the clock and runs the real status.SetApprove/SetCompare on a real directory tree; after every event the real missing-approve binary runs on that tree; reference = latest conclusive observation tracked from the event list: must-list if it does not establish equality with the current code, must-omit if it does, the observed policy is on disk and the status file is undamaged; non-trivial = states where one of the two obligations applies; every transition is an implementation run (traces_validated = transitions)",
+				Rule: "breadth-first search over event histories with canonical-state de-duplication (version ids by first appearance, times and policy numbers by rank); events: new policy {same code, v4/v6/raw differs, ipv6 file dropped, raw file dropped (a dropped file can come back with new content)}, approve ok, approve failed, compare (result computed from the world), manual drift, manual repair, bzip2 of the oldest plain non-current policy (real bzip2), removal of the oldest non-current policy, status damage {empty, 1/3, 2/3, len-1, garbage}; every event advances the clock and runs the real status.SetApprove/SetCompare on a real directory tree; after every event the real missing-approve binary runs on that tree; reference = latest conclusive observation tracked from the event list: must-list if it does not establish equality with the current code, must-omit if it does, the observed policy is on disk and the status file is undamaged; non-trivial = states where one of the two obligations applies; every transition is an implementation run (traces_validated = transitions)",
 				Assumptions: []string{"status written by the harness through status.SetApprove/SetCompare as doapprove.Main does after a run (do-approve's own derivation of failed/changed is covered by C09)",
 					"strictly increasing clock, one second per event"},
 				Bounds: map[string]any{"quick": "depth 5", "thorough": "depth 7"},
